@@ -15,8 +15,8 @@
    types) from the amount amt * f and the unit w. *)
 From Coq Require Import ZArith QArith Qabs List Bool.
 From QV Require Import Model.Num Model.Rounding Model.Quantity Model.Dim Model.Registry
-     Proofs.QuantityProofs Proofs.DimProofs Proofs.RegistryProofs Proofs.DirectoryProofs
-     Proofs.C02Proofs.
+     Proofs.QuantityProofs Proofs.DimProofs Proofs.DimPush Proofs.RegistryProofs
+     Proofs.DirectoryProofs Proofs.DimInv Proofs.C02Proofs Proofs.C02Dim.
 
 (* resolution of a term against the directory: what it returns denotes the term *)
 Theorem C02_resolve_sound : forall dm s x r,
@@ -146,6 +146,45 @@ Theorem C02_scalar : forall s dm ce a u ru k,
                = (s, Ok (MQty (mk_qty dm (qdiv a k) (view s ru))))).
 Proof. exact scalar_keeps_unit. Qed.
 Print Assumptions C02_scalar.
+
+(* the quantity type of the result has EXACTLY the combined dimension: the
+   dimension (over base types) of the result unit's type is the product /
+   quotient / power of the operands' types' dimensions ([rc_dim]: exponent of
+   every base type; one type per dimension by C15_one_class_per_dimension) *)
+Theorem C02_result_type_has_combined_dimension : forall dm s (o : opk) u v r w wu cu cv cw,
+  Reach dm s -> In u (st_units s) -> In v (st_units s) ->
+  val_ok s (opnf o u v) r -> snd r = Some w -> find_unit s w = Some wu ->
+  find_cls s (ru_cls u) = Some cu -> find_cls s (ru_cls v) = Some cv ->
+  find_cls s (ru_cls wu) = Some cw ->
+  rc_dim cw = match o with
+              | KMul => dv_mul (rc_dim cu) (rc_dim cv)
+              | KDiv => dv_mul (rc_dim cu) (dv_inv (rc_dim cv))
+              end.
+Proof. exact R_result_type. Qed.
+Print Assumptions C02_result_type_has_combined_dimension.
+
+Theorem C02_power_type_has_combined_dimension : forall dm s u k r w wu cu cw,
+  Reach dm s -> In u (st_units s) ->
+  val_ok s (nf_pow (ru_nf u) k) r -> snd r = Some w -> find_unit s w = Some wu ->
+  find_cls s (ru_cls u) = Some cu -> find_cls s (ru_cls wu) = Some cw ->
+  rc_dim cw = dv_scale k (rc_dim cu).
+Proof. exact R_result_type_pow. Qed.
+Print Assumptions C02_power_type_has_combined_dimension.
+
+(* UndefinedResultError only when no declared type (with reference unit) —
+   resp. no declared unit — corresponds to the dimension: if the reference unit
+   of a declared type has the result's dimension, or a unit is defined by the
+   result's term without numeric factor, the resolution succeeds *)
+Theorem C02_defined_if_type_declared : forall dm s x c r ru,
+  Reach dm s -> In c (st_classes s) -> rc_ref c = Some r -> find_unit s r = Some ru ->
+  nf_dim x = nf_dim (ru_nf ru) -> resolve s x <> None.
+Proof. exact R_defined_if_type_declared. Qed.
+Print Assumptions C02_defined_if_type_declared.
+
+Theorem C02_defined_if_unit_declared : forall dm s x u,
+  Reach dm s -> In u (st_units s) -> nf_eq (ru_nf u) (mkNf 1 (nf_dim x)) -> resolve s x <> None.
+Proof. exact R_defined_if_unit_declared. Qed.
+Print Assumptions C02_defined_if_unit_declared.
 
 (* non-vacuity: a reachable directory with Length (m, km = 1000 m) and
    Area = Length**2 (reference unit m2): 3 km * 2 km = 6 000 000 m2 *)
